@@ -383,6 +383,13 @@ pub fn run(args: &Args) {
         let mut prog = g.program(2 + (k % 2) as u32, 4);
         programs.push((format!("core:{}", k), crate::c01::print_program(&mut prog)));
     }
+    // 4. constructs of the same kind at positions whose digits read alike, and the nesting matrix
+    for (k, (mut prog, ind)) in crate::c01::lookalike_programs().into_iter().enumerate() {
+        programs.push((format!("lookalike:{}", k), crate::c01::print_program_with_indents(&mut prog, &ind)));
+    }
+    for (name, mut prog) in crate::c01::nest_matrix(&mut rng, args.thorough(), 30) {
+        programs.push((name.replace(' ', ":"), crate::c01::print_program(&mut prog)));
+    }
     let mut accepted_corpus = 0usize;
     for (origin, src) in programs.iter() {
         let (igr, udts) = match compile_with_types(src) {
@@ -463,6 +470,6 @@ pub fn run(args: &Args) {
     sum.write(
         &args.out,
         evaluations,
-        "every accepted program among: all program texts of the repository (fixtures/*.BAS and the raw string literals of the crates' tests), generated programs with SUB/FUNCTION/GOSUB/arrays/ON ERROR, generated core programs. For each: the instruction list is abstracted (control effect + pops/pushes on six stacks), a depth certificate is inferred and `wf_code` is evaluated in Coq (certificate check, labels defined once, statement addresses ascending and inside the list, regions cover the list, branches stay in their procedure, main ends with Halt and procedures with PopRet); the program is then run with the per-instruction observer and the real depths are compared with base + frames + certificate. Non-trivial = distinct abstract instruction lists.",
+        "every accepted program among: all program texts of the repository (fixtures/*.BAS and the raw string literals of the crates' tests), generated programs with SUB/FUNCTION/GOSUB/arrays/ON ERROR, generated core programs, constructs of the same kind at positions whose digits read alike ((1, 11) and (11, 1) ...), a sample of the nesting matrix. For each: the instruction list is abstracted (control effect + pops/pushes on six stacks), a depth certificate is inferred and `wf_code` is evaluated in Coq (certificate check, labels defined once, statement addresses ascending and inside the list, regions cover the list, branches stay in their procedure, main ends with Halt and procedures with PopRet); the program is then run with the per-instruction observer and the real depths are compared with base + frames + certificate. Non-trivial = distinct abstract instruction lists.",
     );
 }
